@@ -6,6 +6,8 @@
 //        optional after <tz>: <codec> ("-" or a QTextCodec name set with QTextCodec::setCodecForLocale before the sink is
 //        created) and <quiet> (1 = no flush and no listing until the `end` line: every other line prints "-") and
 //        <TZ hex> (a full POSIX TZ string with daylight-saving rules, e.g. CET-1CEST,M3.5.0,M10.5.0/3; overrides <tz>)
+//        and <front> (round 8; 1 = the main sink object is NOT constructed directly but obtained through the fluent front end
+//        SimplePipeline().sendToFile(path, L, N, options): records go through that pipeline, flush() is the pipeline's)
 //   w <payload hex> [<type>] | adv <ms> | restart | put <name hex> <bytes hex>
 //        a message text is the hex of its UTF-8 bytes (U+0000 allowed) or u<hex of UTF-16BE code units> (unpaired surrogates)
 //        <type> = the QtMsgType of the message, 0 debug 1 warning 2 critical 3 fatal 4 info (default); the sink is called
@@ -132,7 +134,21 @@ int main(int argc, char **argv)
     setenv("TZ", "UTC", 1);
     tzset();
     QMessageLogContext ctx("f.cpp", 1, "void f()", "cat");
-    RotatingFileSink *sink = nullptr, *sink2 = nullptr;
+    // the main sink: constructed directly, or the pipeline the fluent front end built around it
+    struct Main {
+        RotatingFileSink *direct = nullptr; SimplePipeline *pipe = nullptr;
+        void make(bool fluent, const QString &path, int L, int N, int o)
+        {
+            if (fluent) { pipe = new SimplePipeline(); pipe->sendToFile(path, L, N, RotatingFileSink::Options(o)); }
+            else direct = new RotatingFileSink(path, L, N, RotatingFileSink::Options(o));
+        }
+        void drop() { delete direct; direct = nullptr; delete pipe; pipe = nullptr; }
+        void send(const LogMessage &m) { if (direct) direct->send(m); else if (pipe) { LogMessage c(m); pipe->process(c); } }
+        void flush() { if (direct) direct->flush(); else if (pipe) pipe->flush(); }
+    } sinkm;
+    Main *sink = &sinkm;
+    bool fluent = false;
+    RotatingFileSink *sink2 = nullptr;
     std::map<std::string, RotatingFileSink *> others;
     auto drop_others = [&others]() { for (auto &kv : others) delete kv.second; others.clear(); };
     auto mtype = [](std::istringstream &is) {
@@ -163,12 +179,13 @@ int main(int argc, char **argv)
         std::string op;
         is >> op;
         if (op == "case") {
-            delete sink; sink = nullptr;
+            sink->drop();
             delete sink2; sink2 = nullptr;
             drop_others();
             if (!dir.isEmpty()) QDir(dir).removeRecursively();
-            std::string b, s, codec = "-", tzs = "-"; long long t0; int tz = 0, q = 0;
-            is >> L >> N >> o >> g_gran >> b >> s >> t0 >> tz >> codec >> q >> tzs;
+            std::string b, s, codec = "-", tzs = "-"; long long t0; int tz = 0, q = 0, fr = 0;
+            is >> L >> N >> o >> g_gran >> b >> s >> t0 >> tz >> codec >> q >> tzs >> fr;
+            fluent = fr != 0;
             quiet = q != 0;
             QTextCodec::setCodecForLocale(codec == "-" || codec.empty() ? nullptr : QTextCodec::codecForName(codec.c_str()));
             g_ms = t0;
@@ -186,12 +203,12 @@ int main(int argc, char **argv)
             snap.clear();
             const auto suffix = QString::fromUtf8(unhex(s));
             path = dir + "/" + QString::fromUtf8(unhex(b)) + (suffix.isEmpty() ? QString() : QStringLiteral(".") + suffix);
-            sink = new RotatingFileSink(path, L, N, RotatingFileSink::Options(o));
+            sink->make(fluent, path, L, N, o);
         } else if (op == "restart") {
             delete sink2; sink2 = nullptr;
             drop_others();
-            delete sink;
-            sink = new RotatingFileSink(path, L, N, RotatingFileSink::Options(o));
+            sink->drop();
+            sink->make(fluent, path, L, N, o);
         } else if (op == "w") {
             with_msg(is, [&](const LogMessage &m) { sink->send(m); });
             if (!quiet) sink->flush();
@@ -215,7 +232,7 @@ int main(int argc, char **argv)
         } else if (op == "end") {
             delete sink2; sink2 = nullptr;
             drop_others();
-            delete sink; sink = nullptr;
+            sink->drop();
             quiet = false;
         } else if (op == "adv") {
             long long d; is >> d; if (d > 0) g_ms += d;
@@ -234,7 +251,7 @@ int main(int argc, char **argv)
     }
     delete sink2;
     drop_others();
-    delete sink;
+    sink->drop();
     if (!dir.isEmpty()) QDir(dir).removeRecursively();
     return 0;
 }
